@@ -400,12 +400,17 @@ fn emit_fn(
             let mut calls: Vec<syn::ExprMethodCall> = Vec::new();
             let mut cur = tail.clone();
             // `f(a.m1().m2())` (a chain wrapped by R-chain / R-method-map): peel the one-argument calls
-            let mut wrappers: Vec<syn::ExprCall> = Vec::new();
+            let mut wrappers: Vec<(syn::ExprCall, bool)> = Vec::new();
             loop {
                 match cur {
                     syn::Expr::Call(c) if c.args.len() == 1 && matches!(c.args[0], syn::Expr::MethodCall(_)) => {
                         let inner = c.args[0].clone();
-                        wrappers.push(c);
+                        wrappers.push((c, false));
+                        cur = inner;
+                    }
+                    syn::Expr::Call(c) if c.args.len() == 1 && matches!(&c.args[0], syn::Expr::Reference(r) if r.mutability.is_none() && matches!(&*r.expr, syn::Expr::MethodCall(_))) => {
+                        let inner = match &c.args[0] { syn::Expr::Reference(r) => (*r.expr).clone(), _ => unreachable!() };
+                        wrappers.push((c, true));
                         cur = inner;
                     }
                     other => { cur = other; break; }
@@ -448,10 +453,10 @@ fn emit_fn(
                     nsteps = k + 1;
                 }
                 wrappers.reverse();
-                for (j, mut w) in wrappers.into_iter().enumerate() {
+                for (j, (mut w, by_ref)) in wrappers.into_iter().enumerate() {
                     let k = nsteps + j;
                     let id = syn::Ident::new(&format!("__c{}", k), Span::call_site());
-                    w.args[0] = prev;
+                    w.args[0] = if by_ref { syn::parse_quote!(& #prev) } else { prev };
                     let e = syn::Expr::Call(w);
                     block.stmts.push(syn::parse_quote!(let mut #id = #e;));
                     if let Some(c) = contract {
